@@ -104,7 +104,10 @@ func rulesC19(c *Ctx) {
 	ruleStatusCompare(c)
 	ruleStatusOptions(c)
 	ruleCompareStructural(c)
-	ruleConnectLifecycle(c) // a finished test's session really ends (Stop → Close → disconnect on every path): a session left open constrains the parameters of every later test on a long-lived server (shared with C14)
+	ruleStopCloses(c)            // fluent's Stop ends the session whenever a client is held
+	clearPendingTable(c, false)  // a result for an operation the client never sent surfaces as a receive error, which is what the isolation tests look for (shared with C13, whose known finding F25 — the FIB-ack tolerance — is its own)
+	ruleClientErrorConversion(c) // the count matchers examine the caller's own error (shared with C17)
+	ruleConnectLifecycle(c)      // a finished test's session really ends (Stop → Close → disconnect on every path): a session left open constrains the parameters of every later test on a long-lived server (shared with C14)
 }
 
 func ruleRegistryFIB(c *Ctx, entries []regEntry) {
@@ -792,4 +795,47 @@ func ruleFlushServerHelper(c *Ctx) {
 		}
 	}
 	c.check(bad == "" && nErr >= 1, rule, fi.Name, "a refused clean-up is fatal", c.P.pos(fi.Decl.Pos()), fmt.Sprintf("%d error path(s), all Fatal", nErr), bad)
+}
+
+// STOP-CLOSES — fluent's Stop really ends the session: whenever the fluent client holds a client (g.c != nil) it stops
+// sending and closes it — on every path, whatever else is configured (a session left open by a finished test keeps its
+// parameters registered on a long-lived server and makes the next test's negotiation fail).
+func ruleStopCloses(c *Ctx) {
+	fi := c.need("fluent", "GRIBIClient", "Stop")
+	if fi == nil {
+		return
+	}
+	info := fi.Pkg.TypesInfo
+	r := recvName(fi)
+	aNil := eqAtom(r+".c", "nil")
+	ev := func(n ast.Node) []Event {
+		var out []Event
+		for _, call := range callsIn(n) {
+			f, ok := calleeObj(info, call).(*types.Func)
+			if !ok || recvTypeName(f) != "Client" || f.Pkg() == nil || f.Pkg().Path() != modPath+"/client" {
+				continue
+			}
+			if f.Name() == "StopSending" || f.Name() == "Close" {
+				out = append(out, Event{Kind: f.Name(), Node: call})
+			}
+		}
+		return out
+	}
+	runTable(c, tableSpec{
+		Rule: "STOP-CLOSES", Fn: fi, Construct: "Stop: a held client is stopped and closed", Events: ev,
+		Atoms: map[string]int{aNil: 2},
+		Outcome: func(p Path) string {
+			var evs []string
+			for _, e := range p.Events {
+				evs = append(evs, e.Kind)
+			}
+			return "effects[" + strings.Join(evs, ",") + "]"
+		},
+		Expected: func(v *Valuation) (string, bool) {
+			if v.B(aNil) {
+				return "effects[]", true
+			}
+			return "effects[StopSending,Close]", true
+		},
+	})
 }
